@@ -102,6 +102,7 @@ type Spec struct {
 	Preds       []PredSpec  `json:"preds"`
 	Skels       []SkelSpec  `json:"skels"`
 	Routes      []RouteSpec `json:"routes"`
+	Flows       []FlowSpec  `json:"flows"` // control skeletons, see flow.go
 }
 
 var fset = token.NewFileSet()
@@ -1013,6 +1014,13 @@ func genModule(repo string, spec *Spec, outDir string) {
 	}
 	for i := range spec.Routes {
 		genRoute(repo, &spec.Routes[i], &cs)
+	}
+	if len(spec.Flows) > 0 {
+		cs.WriteString("namespace Flow\n")
+		for i := range spec.Flows {
+			genFlow(repo, &spec.Flows[i], &cs)
+		}
+		cs.WriteString("end Flow\n\n")
 	}
 	cs.WriteString("end Gen\n")
 	writeIfChanged(filepath.Join(outDir, spec.Module+".lean"), cs.String())
